@@ -34,6 +34,8 @@ pub enum Stage {
     Packets,
     /// f32 -> f32 overlap-add FFT filter (block with internal streams)
     FftFloat(TapSpec),
+    /// harness-defined block that moves data in whole chunks of k and asks for k at a time
+    Chunk(u16),
 }
 
 #[derive(Clone, Debug, Serialize, Deserialize, PartialEq)]
@@ -59,6 +61,10 @@ pub struct Recipe {
     /// keys that order the blocks for `add()` (sorted ascending, ties by index)
     pub order: Vec<u16>,
     pub pages: u8,
+    /// if non-empty, the first source hands its data over in pieces of these sizes (one piece
+    /// per work() call, on its own clock) instead of as much as fits
+    #[serde(default)]
+    pub src_pieces: Vec<u16>,
 }
 
 pub fn stage_strategy() -> impl Strategy<Value = Stage> {
@@ -77,6 +83,7 @@ pub fn stage_strategy() -> impl Strategy<Value = Stage> {
         (0u8..=100).prop_map(Stage::Iir),
         Just(Stage::Packets),
         crate::catalog::tapspec_strategy(24).prop_map(Stage::FftFloat),
+        prop_oneof![2u16..9, 2u16..400].prop_map(Stage::Chunk),
     ]
 }
 pub fn simple_strategy() -> impl Strategy<Value = Simple> {
@@ -109,6 +116,41 @@ pub fn recipe_strategy(max_len: u32) -> BoxedStrategy<Recipe> {
             extra_sink,
             order,
             pages,
+            src_pieces: vec![],
+        })
+        .boxed()
+}
+
+/// Tiny graphs about the end of a stream: a source that delivers 1-4 small pieces on its own
+/// clock, one or two stages (biased to rate changers and blocks that ask for more than one
+/// sample), one sink.  Executions are ~50-200 scheduling steps long, so a generated decision
+/// stream covers a useful fraction of their interleavings.
+pub fn tiny_recipe_strategy() -> BoxedStrategy<Recipe> {
+    let stage = prop_oneof![
+        4 => (1u8..4, 1u8..6).prop_map(|(i, d)| Stage::Resamp(i, d)),
+        3 => (2u16..6).prop_map(Stage::Chunk),
+        1 => (0u16..4).prop_map(Stage::Delay),
+        1 => (0u16..4).prop_map(Stage::Skip),
+        1 => Just(Stage::Nrzi),
+        1 => Just(Stage::ToFloat),
+        1 => (crate::catalog::tapspec_strategy(3), 1u8..3).prop_map(|(t, d)| Stage::Fir(t, d)),
+    ];
+    (
+        prop::collection::vec(1u16..6, 1..5),
+        any::<u32>(),
+        prop::collection::vec(stage, 1..3),
+        prop::collection::vec(any::<u16>(), 16),
+    )
+        .prop_map(|(src_pieces, seed, pre, order)| Recipe {
+            src: Gen { pat: 0, len: src_pieces.iter().map(|x| *x as u32).sum(), seed },
+            src2: None,
+            pre,
+            diamond: None,
+            post: vec![],
+            extra_sink: 0,
+            order,
+            pages: 1,
+            src_pieces,
         })
         .boxed()
 }
@@ -189,16 +231,25 @@ pub fn build_opts(r: &Recipe, size: Option<usize>, endless: bool) -> BuiltGraph 
             names.push($n.to_string());
         }};
     }
-    let (s, out) = if endless {
+    let (s, out): (Box<dyn Block + Send>, ReadStream<u8>) = if !r.src_pieces.is_empty() && !endless {
+        let mut d = source_bits(r, &r.src);
+        let total: usize = r.src_pieces.iter().map(|x| *x as usize).sum();
+        d.resize(total, 1);
+        let (b, o) = PieceSource::new(d, r.src_pieces.iter().map(|x| *x as usize).collect(), 0);
+        (Box::new(b), o)
+    } else if endless {
         let mut d = source_bits(r, &r.src);
         if d.is_empty() {
             d = vec![0, 1, 1, 0, 1];
         }
-        VectorSourceBuilder::new(d).repeat(rustradio::Repeat::infinite()).build()
+        let (b, o) = VectorSourceBuilder::new(d).repeat(rustradio::Repeat::infinite()).build();
+        (Box::new(b), o)
     } else {
-        VectorSource::new(source_bits(r, &r.src))
+        let (b, o) = VectorSource::new(source_bits(r, &r.src));
+        (Box::new(b), o)
     };
-    add!(s, "VectorSource");
+    blocks.push(s);
+    names.push("Source".to_string());
     let mut cur = Cur::B(out);
     if let Some(g2) = &r.src2 {
         let (s2, out2) = VectorSource::new(gen_u8(g2, BDom::Bits));
@@ -297,6 +348,16 @@ pub fn build_opts(r: &Recipe, size: Option<usize>, endless: bool) -> BuiltGraph 
             (Stage::FftFloat(t), Cur::F(s)) => {
                 let (b, o) = FftFilterFloat::new(s, &t.taps());
                 add2!(b, "FftFilterFloat");
+                Cur::F(o)
+            }
+            (Stage::Chunk(k), Cur::B(s)) => {
+                let (b, o) = Chunker::new(s, (*k).max(1) as usize);
+                add2!(b, "Chunker");
+                Cur::B(o)
+            }
+            (Stage::Chunk(k), Cur::F(s)) => {
+                let (b, o) = Chunker::new(s, (*k).max(1) as usize);
+                add2!(b, "Chunker");
                 Cur::F(o)
             }
             (Stage::Packets, Cur::B(s)) => {
@@ -544,4 +605,62 @@ pub fn wrap(blocks: Vec<Box<dyn Block + Send>>, names: &[String], shared: &Arc<S
             }) as Box<dyn Block + Send>
         })
         .collect()
+}
+
+/// A user-style block that processes whole chunks of `k` samples and waits for exactly `k`
+/// (input or output room) at a time: exercises the runners with `need > 1` on both sides.
+#[derive(rustradio::rustradio_macros::Block)]
+#[rustradio(new)]
+pub struct Chunker<T: Copy> {
+    #[rustradio(in)]
+    src: ReadStream<T>,
+    #[rustradio(out)]
+    dst: rustradio::stream::WriteStream<T>,
+    k: usize,
+}
+impl<T: Copy> Block for Chunker<T> {
+    fn work(&mut self) -> rustradio::Result<BlockRet> {
+        let (i, _tags) = self.src.read_buf()?;
+        if i.len() < self.k {
+            return Ok(BlockRet::WaitForStream(&self.src, self.k));
+        }
+        let mut o = self.dst.write_buf()?;
+        if o.len() < self.k {
+            return Ok(BlockRet::WaitForStream(&self.dst, self.k));
+        }
+        let n = (i.len().min(o.len()) / self.k) * self.k;
+        o.slice()[..n].copy_from_slice(&i.slice()[..n]);
+        o.produce(n, &[]);
+        i.consume(n);
+        Ok(BlockRet::Again)
+    }
+}
+
+/// A source that hands over its data in pieces of given sizes, one piece per work() call
+/// (a capture device / network source delivers on its own clock, not when there is room).
+#[derive(rustradio::rustradio_macros::Block)]
+#[rustradio(new)]
+pub struct PieceSource {
+    #[rustradio(out)]
+    dst: rustradio::stream::WriteStream<u8>,
+    data: Vec<u8>,
+    pieces: Vec<usize>,
+    idx: usize,
+}
+impl Block for PieceSource {
+    fn work(&mut self) -> rustradio::Result<BlockRet> {
+        if self.idx >= self.pieces.len() {
+            return Ok(BlockRet::EOF);
+        }
+        let n = self.pieces[self.idx];
+        let start: usize = self.pieces[..self.idx].iter().sum();
+        let mut o = self.dst.write_buf()?;
+        if o.len() < n {
+            return Ok(BlockRet::WaitForStream(&self.dst, n));
+        }
+        o.slice()[..n].copy_from_slice(&self.data[start..start + n]);
+        o.produce(n, &[]);
+        self.idx += 1;
+        Ok(if self.idx == self.pieces.len() { BlockRet::EOF } else { BlockRet::Again })
+    }
 }
